@@ -342,6 +342,9 @@ class Tensor:
         Copies all attributes of a tensor to this tensor
         """
         self.__dict__.update(tensor.__dict__)
+        # the copy is a new leaf over the same data, not a second result of the operation that produced `tensor`
+        # (whose backward function writes into the gradient of `tensor`, not of the copy)
+        self._grad_fn = None; self._children = (); self._operation = None
         if self._grad is not None: # the copy accumulates into a gradient buffer of its own
             self._grad = self._grad.copy()
         
